@@ -23,6 +23,7 @@ import (
 	"github.com/buildbarn/bb-remote-execution/pkg/filesystem/virtual"
 	"github.com/buildbarn/bb-remote-execution/pkg/proto/remoteworker"
 	runner_pb "github.com/buildbarn/bb-remote-execution/pkg/proto/runner"
+	"github.com/buildbarn/bb-storage/pkg/blobstore"
 	"github.com/buildbarn/bb-storage/pkg/clock"
 	"github.com/buildbarn/bb-storage/pkg/filesystem"
 	"github.com/buildbarn/bb-storage/pkg/filesystem/path"
@@ -46,6 +47,12 @@ type fakeRunner struct {
 	onRun func() error
 	ran   bool
 	err   error
+
+	// pipeline driver: what the command prints / logs, how it exits
+	exit      int
+	stdout    []byte
+	stderr    []byte
+	serverLog []byte
 }
 
 func (r *fakeRunner) CheckReadiness(ctx context.Context, in *runner_pb.CheckReadinessRequest, opts ...grpc.CallOption) (*emptypb.Empty, error) {
@@ -64,7 +71,18 @@ func (r *fakeRunner) Run(ctx context.Context, in *runner_pb.RunRequest, opts ...
 			return nil, err
 		}
 	}
-	return &runner_pb.RunResponse{ExitCode: 0}, nil
+	for _, o := range []struct {
+		path string
+		data []byte
+	}{{in.StdoutPath, r.stdout}, {in.StderrPath, r.stderr}, {in.ServerLogsDirectory + "/log", r.serverLog}} {
+		if len(o.data) > 0 {
+			if err := r.e.writeBuildFile(o.path, o.data); err != nil {
+				r.err = err
+				return nil, err
+			}
+		}
+	}
+	return &runner_pb.RunResponse{ExitCode: int64(r.exit)}, nil
 }
 
 // execEnv is an environment whose build directory has not been prepared:
@@ -77,8 +95,19 @@ type execEnv struct {
 }
 
 func newExecEnv(native bool) (*execEnv, error) {
-	e := &env{cas: newFakeCAS(), logger: &collectingErrorLogger{}}
+	return newExecEnvWith(native, newFakeCAS(), nil, false)
+}
+
+// newExecEnvWith: `store` holds the blobs (inputs are fetched from it);
+// `upload` is what the executor and its build directory write outputs to
+// and read the Command from (nil: the store itself; the pipeline driver
+// passes the worker's batching writer, as cmd/bb_worker does).
+func newExecEnvWith(native bool, store *fakeCAS, upload blobstore.BlobAccess, force bool) (*execEnv, error) {
+	e := &env{cas: store, logger: &collectingErrorLogger{}}
 	e.df, e.ctx = digestFunction(), backgroundContext()
+	if upload == nil {
+		upload = store
+	}
 	x := &execEnv{env: e, runner: &fakeRunner{e: e}}
 	directoryFetcher := cas.NewBlobAccessDirectoryFetcher(e.cas, 1<<20, 1<<20)
 	var buildDirectory builder.BuildDirectory
@@ -93,7 +122,7 @@ func newExecEnv(native bool) (*execEnv, error) {
 		if err != nil {
 			return nil, err
 		}
-		buildDirectory = builder.NewNaiveBuildDirectory(directory, directoryFetcher, cas.NewBlobAccessFileFetcher(e.cas), semaphore.NewWeighted(1), e.cas)
+		buildDirectory = builder.NewNaiveBuildDirectory(directory, directoryFetcher, cas.NewBlobAccessFileFetcher(e.cas), semaphore.NewWeighted(1), upload)
 		e.nativeTop = buildDirectory
 		x.filePool = pool.EmptyFilePool
 	} else {
@@ -114,14 +143,14 @@ func newExecEnv(native bool) (*execEnv, error) {
 			clock.SystemClock, virtual.CaseSensitiveComponentNormalizer, defaultAttributesSetter, virtual.NoNamedAttributesFactory,
 		)
 		buildDirectory = builder.NewVirtualBuildDirectory(
-			e.top, directoryFetcher, e.cas,
+			e.top, directoryFetcher, upload,
 			virtual.NewHandleAllocatingSymlinkFactory(virtual.NewBaseSymlinkFactory(defaultAttributesSetter), handleAllocator.New(), path.LocalFormat),
 			virtual.NewHandleAllocatingCharacterDeviceFactory(virtual.BaseCharacterDeviceFactory, handleAllocator.New()),
 			handleAllocator, defaultAttributesSetter, clock.SystemClock,
 		)
 	}
 	x.executor = builder.NewLocalBuildExecutor(
-		e.cas,
+		upload,
 		builder.NewRootBuildDirectoryCreator(buildDirectory),
 		x.runner,
 		clock.SystemClock,
@@ -129,7 +158,7 @@ func newExecEnv(native bool) (*execEnv, error) {
 		/* inputRootCharacterDevices = */ nil,
 		/* maximumMessageSizeBytes = */ 1<<20,
 		/* environmentVariables = */ map[string]string{},
-		/* forceUploadTreesAndDirectories = */ false,
+		/* forceUploadTreesAndDirectories = */ force,
 	)
 	return x, nil
 }
